@@ -340,6 +340,14 @@ class Encoder(Coder):
     def process_string_compressed(self, state, bit_writer, descriptor, nbytes_min_value):
         values, all_equal, all_missing = self._next_compressed_values_and_status_from_all_subsets(state, descriptor)
 
+        if not all_equal and None not in values:
+            # Values that differ only by trailing blanks (or beyond the field width)
+            # occupy the field identically and hence are equal.
+            fitted = [(v.encode('latin-1') if isinstance(v, six.text_type) else v)[:nbytes_min_value]
+                      .ljust(nbytes_min_value, b' ') for v in values]
+            if fitted.count(fitted[0]) == len(fitted):
+                values, all_equal = fitted, True
+
         if all_missing:
             min_value = '\xff' * nbytes_min_value
             nbytes_diff = 0
